@@ -12,9 +12,13 @@ META = {
                  "the compile walk (refinement); three ties to the code on every run: recorded scope-event traces vs the "
                  "machine, recorded traces vs the walk model, machine vs resolver on each generated program; generated "
                  "programs executed and judged against a lexical reference interpreter",
-    "level_text": "see coq/Props/C06.v: the refinement statement C06_let_refines_lexical_full and what is proved of it; "
-                  "the per-program refinement instances and both correspondences are re-established on every run for "
-                  "all generated programs; the dynamic statement is checked by execution.",
+    "level_text": "C06_let_refines_lexical_partial (coq/Props/C06.v): for EVERY module built from literals, symbols, setv/setx, "
+                  "do, calls, let (any number of sequential bindings), fn and defn, nested to any depth, the scope machine run "
+                  "on the compile walk's events gives every identifier node exactly the name the lexical resolver prescribes "
+                  "(shadowing, restore on exit, setv targets, deferred ScopeFn.__exit__ resolution at the definition point, "
+                  "nothing renamed outside). Classes, declarations, comprehension forms and defn of a let-bound name are "
+                  "outside the specification (full statement kept as C06_let_refines_lexical_full). Both models are compared "
+                  "with the real compiler on every run; the dynamic statement is checked by execution.",
     "level_note": "Closures' dynamic behaviour (call-time binding) relies on Python's own semantics and is checked by "
                   "execution against the reference interpreter, not proved.",
 }
@@ -71,7 +75,7 @@ def run(chk):
     thorough = chk.tier == "thorough"
     labelled = list(DOC)
     g6 = sp.Gen(chk.rng, "c06")
-    for i in range(25000 if thorough else 800):
+    for i in range(16000 if thorough else 600):
         labelled.append(("c06:%d" % i, g6.program()))
     chk.rule = ("programs = the documentation's let examples + seeded random programs with up to 4 nested binding constructs "
                 "(let with 1-2 sequential bindings, defn, fn stored and called later, lfor with own variables and setx, "
@@ -80,10 +84,10 @@ def run(chk):
                 "correspondence, refinement instance; (b) executed and compared with the lexical reference interpreter "
                 "(log, exception kind, module globals). non-trivial = distinct program containing a let")
     t1 = time.time()
-    so.correspondence(chk, labelled, limit=(6000 if thorough else 300))
+    so.correspondence(chk, labelled, limit=(4000 if thorough else 200))
     phases["machine trace correspondence"] = round(time.time() - t1, 1)
     t2 = time.time()
-    so.walk_and_lex(chk, labelled, limit=(6000 if thorough else 300))
+    so.walk_and_lex(chk, labelled, limit=(4000 if thorough else 200))
     phases["walk correspondence + refinement instances"] = round(time.time() - t2, 1)
     t3 = time.time()
     so.oracle(chk, "C06", labelled, need=("let",))
